@@ -405,13 +405,33 @@ def r_named_constants(rule, root=None):
         rule.ok("Axis::try_from normalises to unit length")
     else:
         rule.bad("Axis::try_from", "Axis::try_from must divide by the vector's norm", A.where(fn))
+    # ... and `norm` is the Euclidean length (what makes value / value.norm() a unit vector)
+    for ty, comps in (("Vec2", "xy"), ("Vec3", "xyz")):
+        try:
+            nf = A.find_fn(TYPES, "norm", self_ty=ty, root=root)
+        except A.AnchorLost:
+            rule.lost("%s::norm" % ty)
+            continue
+        env = S.SymEnv()
+        syms = {c_: env.sym("v" + c_) for c_ in comps}
+        env.vars["self"] = dict(syms, __prefix__="self")
+        try:
+            got = S.to_sym(A.unblock(nf["body"]), env)
+            want = sp.sqrt(sum(v_ ** 2 for v_ in syms.values()))
+            good = sp.simplify(got - want) == 0
+        except Exception as e_:  # noqa: BLE001
+            got, good = "? (%s)" % e_, False
+        if good:
+            rule.ok("%s::norm is the Euclidean length" % ty, file=TYPES, line=nf["ln"])
+        else:
+            rule.bad("%s::norm" % ty, "%s::norm computes `%s`; axes are made unit by dividing by it, so it must be sqrt(%s)" % (ty, got, " + ".join("%s^2" % c_ for c_ in comps)), A.where(nf))
 
 
 from . import C13  # noqa: E402
 
 
 def run(ctx):
-    r = ctx.rule("R1", "named axes and planes denote what their names say", 7)
+    r = ctx.rule("R1", "named axes and planes denote what their names say", 9)
     ctx.guarded(r, r_named_constants)
     r = ctx.rule("R2", "primitives and CSG combinators equal their documented closed forms", 9)
     ctx.guarded(r, r_primitives)
